@@ -251,7 +251,9 @@ func (g *gen) couldHaveDerivedVar(n *a.Expr) bool {
 }
 
 func (g *gen) writeLoadExprDerivedVars(b *buffer, n *a.Expr) error {
-	if (g.currFunk.derivedVars != nil) && (n.Operator() == a.ExprOperatorCall) {
+	// This applies even if g.currFunk.derivedVars is empty (no args.etc I/O
+	// variables): an io_bind'ed local variable also has derived variables.
+	if n.Operator() == a.ExprOperatorCall {
 		for _, o := range n.Args() {
 			if v := o.AsArg().Value(); g.couldHaveDerivedVar(v) {
 				if err := g.writeLoadDerivedVar(b, v); err != nil {
@@ -264,7 +266,7 @@ func (g *gen) writeLoadExprDerivedVars(b *buffer, n *a.Expr) error {
 }
 
 func (g *gen) writeSaveExprDerivedVars(b *buffer, n *a.Expr) error {
-	if (g.currFunk.derivedVars != nil) && (n.Operator() == a.ExprOperatorCall) {
+	if n.Operator() == a.ExprOperatorCall {
 		for _, o := range n.Args() {
 			if v := o.AsArg().Value(); g.couldHaveDerivedVar(v) {
 				if err := g.writeSaveDerivedVar(b, v); err != nil {
